@@ -215,7 +215,10 @@ func ExplainGpos(fontInfo *sfnt.Font) []string {
 
 			case *gtab.Gpos2_2:
 				checkType(2)
-				ee.w.WriteString("\n\t")
+				if i == 0 {
+					// later subtables already start on a new line
+					ee.w.WriteString("\n\t")
+				}
 				ee.w.WriteRune('/')
 				ee.writeGlyphList(l.Cov.Glyphs())
 				ee.w.WriteRune('/')
@@ -271,11 +274,15 @@ func ExplainGpos(fontInfo *sfnt.Font) []string {
 			case *gtab.Gpos4_1:
 				checkType(4)
 				markGlyphs := l.MarkCov.Glyphs()
-				for i, gid := range markGlyphs {
-					ee.w.WriteString("\n\tmark ")
+				for j, gid := range markGlyphs {
+					if i == 0 || j > 0 {
+						// later subtables already start on a new line
+						ee.w.WriteString("\n\t")
+					}
+					ee.w.WriteString("mark ")
 					ee.writeGlyph(gid)
 					ee.w.WriteRune(':')
-					rec := l.MarkArray[i]
+					rec := l.MarkArray[j]
 					fmt.Fprintf(ee.w, " %d@%d,%d", rec.Class, rec.Table.X, rec.Table.Y)
 					ee.w.WriteRune(';')
 				}
